@@ -128,10 +128,10 @@ func signedarea(polygon []Point) float64 {
 func (p Polygon) Centroid() Point {
 	// The sums below are cubic in the coordinates. When the cubes would leave
 	// the floating point range, the centroid of a copy scaled by a power of
-	// two (which is exact) is calculated and scaled back.
-	if k := centroidScale(p); k != 1 {
-		c := p.scaled(k).Centroid()
-		return Point{X: c.X * k, Y: c.Y * k}
+	// two per axis (which is exact) is calculated and scaled back.
+	if kx, ky := centroidScale(p); kx != 1 || ky != 1 {
+		c := p.scaled(kx, ky).Centroid()
+		return Point{X: c.X * kx, Y: c.Y * ky}
 	}
 	var A, xA, yA float64
 	for _, r := range p {
@@ -158,18 +158,26 @@ func (p Polygon) Centroid() Point {
 	return Point{X: xA / A, Y: yA / A}
 }
 
-// centroidScale returns the power of two by which the coordinates of the rings
-// are to be divided before the cubic sums of the centroid formula are formed,
-// or 1 when the largest coordinate is inside [2^-300, 2^300].
-func centroidScale(rings ...Polygon) float64 {
-	m := 0.
+// centroidScale returns, for each axis, the power of two by which the
+// coordinates of the rings on that axis are to be divided before the cubic sums
+// of the centroid formula are formed, or 1 when the largest coordinate on that
+// axis is inside [2^-300, 2^300].
+func centroidScale(rings ...Polygon) (kx, ky float64) {
+	mx, my := 0., 0.
 	for _, p := range rings {
 		for _, r := range p {
 			for _, v := range r {
-				m = math.Max(m, math.Max(math.Abs(v.X), math.Abs(v.Y)))
+				mx = math.Max(mx, math.Abs(v.X))
+				my = math.Max(my, math.Abs(v.Y))
 			}
 		}
 	}
+	return centroidAxisScale(mx), centroidAxisScale(my)
+}
+
+// centroidAxisScale returns the power of two k with k <= m < 2k when m is
+// outside [2^-300, 2^300] (and positive and finite), otherwise 1.
+func centroidAxisScale(m float64) float64 {
 	if (m >= 0x1p300 || (m <= 0x1p-300 && m > 0)) && !math.IsInf(m, 0) {
 		_, e := math.Frexp(m)
 		return math.Ldexp(1, e-1)
@@ -177,13 +185,13 @@ func centroidScale(rings ...Polygon) float64 {
 	return 1
 }
 
-// scaled returns a copy of p with every coordinate divided by k.
-func (p Polygon) scaled(k float64) Polygon {
+// scaled returns a copy of p with every X divided by kx and every Y by ky.
+func (p Polygon) scaled(kx, ky float64) Polygon {
 	q := make(Polygon, len(p))
 	for i, r := range p {
 		q[i] = make(Path, len(r))
 		for j, v := range r {
-			q[i][j] = Point{X: v.X / k, Y: v.Y / k}
+			q[i][j] = Point{X: v.X / kx, Y: v.Y / ky}
 		}
 	}
 	return q
